@@ -583,8 +583,8 @@ def run_check(prop, tier, seed, only=None, write_evidence=True):
         for gi, ((gname, gargs, _uw), hs) in enumerate(sorted(groups.items())):
             tag = '%d-%s' % (gi, re.sub(r'[^A-Za-z0-9]+', '_', gname))
             log('[kani] group %s: %d harness(es) %s' % (gname, len(hs), gargs))
-            # groups named heavy* hold obligations that need 20+ GB each: two at a time
-            res = kani_group(scratch, hs, 2 if gname.startswith('heavy') else NCPU, logdir, tag)
+            # groups named heavy* hold obligations that need 20+ GB each: two at a time; mem*: about 10 GB each: three at a time
+            res = kani_group(scratch, hs, 2 if gname.startswith('heavy') else (min(3, NCPU) if gname.startswith('mem') else NCPU), logdir, tag)
             if first:
                 scratch.save_cache()
                 first = False
